@@ -63,3 +63,17 @@ package common
 //@       called(verifyKESSignature) && callres(verifyKESSignature) == nil && callarg(verifyKESSignature, 1) == msg &&
 //@       called(verifyKESPeriodRotation) && callres(verifyKESPeriodRotation) == nil &&
 //@       called(computePoolID) && callarg(verifyKESPeriodRotation, 1) == callres(computePoolID)
+
+// C04: a chain point is accepted only if the generic decode of the very bytes handed in succeeded
+// and produced either an empty list (the origin) or a two-element list whose first element is an
+// unsigned integer and whose second is a byte string - which then become the slot and the hash.
+// Anything else (other arity, other element kinds) is an error, never a silently coerced point.
+//@ func (p *Point) UnmarshalCBOR(data) (err)
+//@   props C04
+//@   attr trackcalls on
+//@   requires nonnil: p != nil
+//@   ensures generic: err == nil ==> called(Decode) && callres(Decode, 1) == nil && callarg(Decode, 0) == data &&
+//@       dyn(callarg(Decode, 1)) == type(*[]any)
+//@   ensures arity: err == nil ==> len(tmp) == 0 || len(tmp) == 2
+//@   ensures pair: err == nil && len(tmp) == 2 ==> dyn(tmp[0]) == type(uint64) && dyn(tmp[1]) == type([]byte) &&
+//@       p.Slot == unbox(tmp[0], type(uint64)) && p.Hash == unbox(tmp[1], type([]byte))
